@@ -73,7 +73,7 @@ func (g *graph) processWithThresholds(ctx context.Context, e *Event, threshold, 
 			done = true
 		case s, ok := <-statusChan:
 			if ok {
-				verifPoint("collectRecv", "", "")
+				verifPoint("collectRecv", "", verifStatusNode(s))
 				status.Warnings = append(status.Warnings, s.Warnings...)
 				status.complete = append(status.complete, s.complete...)
 				status.completeSinks = append(status.completeSinks, s.completeSinks...)
